@@ -15,6 +15,10 @@ OBLIGATIONS = [
     SX("sx_banded", "sx_c09", "ob_banded", cls="E", quick=900, thorough=3600, parts={"quick": 8, "thorough": 16},
        functions=[A + "banded.pyx:align_banded/_fill_align_table(_affine)/get_global_trace_starts (compiled)"],
        bounds="all code combinations for shapes (2,2),(3,2) (thorough up to 3x3/4x2) x matrices x gap settings x every ordered band pair in [-n-1, m+1] x {semi-global, local}"),
+    SX("kx_banded_fill", "kx_c09_banded", "ob_banded_fill", cls="S", engine="KX", quick=600, thorough=3000, parts={"quick": 16, "thorough": 16},
+       functions=[A + "banded.pyx:_fill_align_table", A + "tracetable.pyx:get_trace_linear"],
+       stubs=["table layout / initialisation of align_banded transcribed (zeros, 'negative infinity' boundary columns)", "int32 scores as mathematical ints converted on every store; uint8 codes as bit-vectors; if-converted"],
+       bounds="shapes 2x2, 2x3, 3x3 (thorough + 3x4, 2x4), 6-8 (all) cropped bands per shape, semi-global and local, symbolic codes over |A|=2, EVERY matrix entry in +-2^20, gap penalty in -2^20..0: each cell inside the band <= the unbanded optimum for that end point; each cell == the banded recurrence stated in sequence coordinates (border positions count as 0); local cells >= 0; no access outside the tables"),
 ]
 EXPLANATION = "C09: heuristic alignments are valid, honestly scored and never above optimal."
 ASSUMPTIONS = []
